@@ -596,6 +596,71 @@ impl Check for C12Preset {
     }
 }
 
+// ---------------------------------------------------------------- --set values are closed
+
+/// `--set n=v` binds n to the value of v, and v sees nothing: not the input, and not the
+/// other --set variables, whatever the order of the options. So `--set a=A --set b=E(:a)`
+/// must bind b as `--set b=E(:never_bound)` does, in both orders.
+#[derive(Clone, Debug, Serialize, Deserialize)]
+pub struct CasePresetValue {
+    pub a: String,
+    pub template: u8,
+    pub fallback: String,
+    pub a_first: bool,
+    /// the other binding is a macro (`--set @a=..`) instead of a variable
+    pub other_is_macro: bool,
+}
+
+pub struct C12PresetValue;
+impl C12PresetValue {
+    fn value_expr(c: &CasePresetValue, var: &str) -> String {
+        let v = if c.other_is_macro { format!("@{}", var) } else { format!(":{}", var) };
+        match c.template % 7 {
+            0 => format!("(default {} {})", v, c.fallback),
+            1 => format!("(default (+ {} 1) {})", v, c.fallback),
+            2 => format!("(push [] (default {} {}))", v, c.fallback),
+            3 => format!("(default (get {} 0) {})", v, c.fallback),
+            4 => format!("(default (stringify {}) {})", v, c.fallback),
+            5 => format!("(put {{}} \"k\" (default {} {}))", v, c.fallback),
+            _ => format!("(default (size {}) (size {}) {})", v, v, c.fallback),
+        }
+    }
+}
+impl Check for C12PresetValue {
+    type Case = CasePresetValue;
+    fn name(&self) -> &'static str {
+        "C12.preset_value"
+    }
+    fn cases(&self, tier: Tier) -> u64 {
+        tier.pick(8_000, 200_000)
+    }
+    fn strategy(&self, _t: Tier) -> BoxedStrategy<CasePresetValue> {
+        let lit = prop::sample::select(vec!["1", "0", "-2.5", "\"s\"", "\"\"", "true", "false", "null", "[1,2]", "[]", "{\"k\":1}", "{}", "[[3]]", "18446744073709551615"]).prop_map(|s| s.to_string());
+        (lit.clone(), 0u8..7, lit, any::<bool>(), prop::bool::weighted(0.25)).prop_map(|(a, template, fallback, a_first, other_is_macro)| CasePresetValue { a, template, fallback, a_first, other_is_macro }).boxed()
+    }
+    fn check(&self, c: &CasePresetValue) -> CaseResult {
+        let set_a = if c.other_is_macro { format!("--set=@a={}", c.a) } else { format!("--set=a={}", c.a) };
+        let with = format!("--set=b={}", Self::value_expr(c, "a"));
+        let without = format!("--set=b={}", Self::value_expr(c, "never_bound"));
+        let sel = "--select=:b = b".to_string();
+        let a1 = if c.a_first { vec![set_a.clone(), with.clone(), sel.clone()] } else { vec![with.clone(), set_a.clone(), sel.clone()] };
+        let a2 = if c.a_first { vec![with.clone(), set_a.clone(), sel.clone()] } else { vec![set_a.clone(), with.clone(), sel.clone()] };
+        let a3 = vec![set_a.clone(), without.clone(), sel.clone()];
+        let input = b"{\"x\":1}\n[2]\n";
+        let (o1, o2, o3) = (run(&a1, input), run(&a2, input), run(&a3, input));
+        if o1.res.is_panic() || o2.res.is_panic() || o3.res.is_panic() {
+            return CaseResult::Fail(format!("panic: {} / {} / {} (args {:?})", o1.res.short(), o2.res.short(), o3.res.short(), a1));
+        }
+        if o1.res != o2.res || o1.stdout != o2.stdout {
+            return CaseResult::Fail(format!("the order of two --set options changes the result: {:?} gives {} {}; {:?} gives {} {}", a1, o1.res.short(), esc_trunc(&o1.stdout, 200), a2, o2.res.short(), esc_trunc(&o2.stdout, 200)));
+        }
+        if o1.res != o3.res || o1.stdout != o3.stdout {
+            return CaseResult::Fail(format!("a --set value saw another --set binding: {:?} gives {} {}; with a name that is never bound {:?} gives {} {}", a1, o1.res.short(), esc_trunc(&o1.stdout, 200), a3, o3.res.short(), esc_trunc(&o3.stdout, 200)));
+        }
+        CaseResult::Pass(Info::new(o1.res.is_ok()).class_if(c.other_is_macro, "other_binding_is_a_macro").class_if(!o1.res.is_ok(), "rejected_in_all_three_forms").obs(json!({"args": a1, "stdout": esc_trunc(&o1.stdout, 120)})))
+    }
+}
+
 pub fn run_all(ctx: &mut Ctx) {
     ctx.rule = "(subst) expression e (depth <= 4, type-directed, uses ^ inside functional arguments) over a bound variable (literal of any kind) and a bound macro (expression that may use the variable, `.` and `^`), nested set/define incl. shadowing, optional --split-by in front, e at --select position 1..4; oracle: e under (set (define ..)), (define (set ..)) and --set/--set @ must give, per record, exactly the value of the harness' AST-level substitution (all macros inlined at the use site, the variable replaced by its literal, inner set forms kept). (pipe) (| a b) and (| a b c) must equal b applied to a's value via map over [a] (`.` = value, `^` = input) and via --split-by=[a] --select=b. (selects) k copies of one expression interleaved with other selections after optional --split-by/--filter must agree per row. non-trivial = the binding is used and a result exists and (binding used under a lambda or after split or not first select) / stage reads ^ or three stages / expression reads ^ and yields a value".into();
     ctx.assumptions = vec![
@@ -609,8 +674,10 @@ pub fn run_all(ctx: &mut Ctx) {
     C12Preset.run(ctx);
     ctx.rule.push_str(". (set_value) (set n X e) with an input-dependent X must equal (set n <the value --select shows for X on that record, as a literal> e), and be nothing when X is nothing");
     C12SetValue.run(ctx);
+    ctx.rule.push_str(". (preset_value) --set a=A (or @a=A) next to --set b=E(:a) for seven closed templates E: b must be bound as with a name that is never bound, in both option orders");
+    C12PresetValue.run(ctx);
 }
 
 pub fn checks() -> Vec<Box<dyn DynCheck>> {
-    vec![Box::new(C12Subst), Box::new(C12Pipe), Box::new(C12Selects), Box::new(C12Preset), Box::new(C12SetValue)]
+    vec![Box::new(C12Subst), Box::new(C12Pipe), Box::new(C12Selects), Box::new(C12Preset), Box::new(C12SetValue), Box::new(C12PresetValue)]
 }
